@@ -6,6 +6,7 @@
 -/
 import LbfgsbVerif.Model.Shell
 import LbfgsbVerif.Proofs.SF
+import LbfgsbVerif.Proofs.Count
 
 namespace Lbfgsb
 variable {α ε δ : Type}
@@ -38,6 +39,7 @@ structure LSSum (u : User α ε) (x0 d lb ub : Vec α) (f0 : α) (fuel : Nat) (l
   nfev_le : l.sf.mode = .callable → l'.sf.nfev ≤ l.sf.nfev + fuel
   ngev_ge : l.sf.ngev ≤ l'.sf.ngev
   best : BestInv u x0 d lb ub f0 l.sf.scale l'.fBest l'.best
+  counted : ∀ n g, CountedFrom n g l.sf → CountedFrom n g l'.sf
 
 theorem LSSum.refl' {u : User α ε} {x0 d lb ub : Vec α} {f0 : α} (fuel : Nat) {l l' : LS α δ}
     (hc : Coh u.toSFUser l.sf) (hb : BestInv u x0 d lb ub f0 l.sf.scale l.fBest l.best)
@@ -46,7 +48,7 @@ theorem LSSum.refl' {u : User α ε} {x0 d lb ub : Vec α} {f0 : α} (fuel : Nat
   refine ⟨by rw [hsf]; exact hc, by rw [hsf], by rw [hsf], by rw [hsf], by rw [hsf],
     by rw [hsf]; exact LogExt.refl _, by rw [hsf]; exact Nat.le_refl _, fun _ => by rw [hsf]; omega,
     by rw [hsf]; exact Nat.le_refl _,
-    by rw [hfb, hbe]; exact hb⟩
+    by rw [hfb, hbe]; exact hb, fun n g h => by rw [hsf]; exact h⟩
 
 theorem LSSum.trans {u : User α ε} {x0 d lb ub : Vec α} {f0 : α} {n m : Nat} {l1 l2 l3 : LS α δ}
     (h1 : LSSum u x0 d lb ub f0 n l1 l2) (h2 : LSSum u x0 d lb ub f0 m l2 l3) :
@@ -54,7 +56,7 @@ theorem LSSum.trans {u : User α ε} {x0 d lb ub : Vec α} {f0 : α} {n m : Nat}
   refine ⟨h2.coh, by rw [h2.mode, h1.mode], by rw [h2.lb_eq, h1.lb_eq], by rw [h2.ub_eq, h1.ub_eq],
     by rw [h2.scale, h1.scale], LogExt.trans h1.log (by rw [← h1.mode]; exact h2.log),
     Nat.le_trans h1.nfev_ge h2.nfev_ge, ?_, Nat.le_trans h1.ngev_ge h2.ngev_ge,
-    by rw [← h1.scale]; exact h2.best⟩
+    by rw [← h1.scale]; exact h2.best, fun n g h => h2.counted n g (h1.counted n g h)⟩
   intro hm
   have a := h1.nfev_le hm
   have b := h2.nfev_le (by rw [h1.mode]; exact hm)
@@ -82,7 +84,8 @@ theorem lsStep_sum (u : User α ε) (o : Oracles α δ) (x0 d lb ub : Vec α) (f
         injection h with h
         injection h with h _
         subst h
-        refine ⟨es.coh, es.mode, es.lb, es.ub, es.scale, hlog, es.nfev_ge, es.nfev_le, es.ngev_ge, ?_⟩
+        refine ⟨es.coh, es.mode, es.lb, es.ub, es.scale, hlog, es.nfev_ge, es.nfev_le, es.ngev_ge, ?_,
+          fun n g hcn => funAndGrad_counted hcn h1⟩
         refine ⟨fun hh => hb.1 (lt_trans hh hlt), ?_⟩
         intro stp hs
         simp only [Option.some.injEq] at hs
@@ -92,7 +95,8 @@ theorem lsStep_sum (u : User α ε) (o : Oracles α δ) (x0 d lb ub : Vec α) (f
         injection h with h
         injection h with h _
         subst h
-        exact ⟨es.coh, es.mode, es.lb, es.ub, es.scale, hlog, es.nfev_ge, es.nfev_le, es.ngev_ge, hb⟩
+        exact ⟨es.coh, es.mode, es.lb, es.ub, es.scale, hlog, es.nfev_ge, es.nfev_le, es.ngev_ge, hb,
+          fun n g hcn => funAndGrad_counted hcn h1⟩
   · simp only [pure, Except.pure] at h
     injection h with h
     injection h with h _
@@ -151,6 +155,7 @@ structure LineSearchSum (u : User α ε) (c : Cfg α) (x0 d : Vec α) (f0 : α) 
   the scale) is below the starting value -/
   downhill : ∀ stp, stp? = some stp →
     ∃ v, u.F (trial x0 d c.lb c.ub stp) = .ok v ∧ v * sf.scale < f0
+  counted : ∀ n g, CountedFrom n g sf → CountedFrom n g sf'
 
 theorem lineSearch_sum (u : User α ε) (o : Oracles α δ) (c : Cfg α) (x0 : Vec α) (f0 : α)
     (g0 d : Vec α) (nit : Nat) (sf sf' : SF α) (maxIter : Nat) (olog olog' : List (OReq α))
@@ -171,7 +176,7 @@ theorem lineSearch_sum (u : User α ε) (o : Oracles α δ) (c : Cfg α) (x0 : V
       intro hn hsf
       subst hsf
       refine ⟨ls.coh, ls.mode, ls.lb_eq, ls.ub_eq, ls.scale, ls.log, ls.nfev_ge, ls.nfev_le,
-        ls.ngev_ge, ?_⟩
+        ls.ngev_ge, ?_, ls.counted⟩
       intro stp hs
       rcases hn with hn | hn
       · rw [hn] at hs; simp at hs
